@@ -513,7 +513,7 @@ class IMAPClient:
                 # Read until b'\r\n'. Trim off the '\r\n'. If the message is
                 # not of 0 length then append it to our incremental buffer.
                 #
-                msg = await self.reader.readuntil(self.LINE_TERMINATOR)
+                msg = await self.read_line()
                 msg = msg.rstrip()
                 if msg:
                     self.ibuffer.append(msg)
@@ -675,6 +675,40 @@ class IMAPClient:
 
     ####################################################################
     #
+    async def read_line(self) -> bytes:
+        """
+        Read up to and including the next line terminator.
+
+        A line may be longer than the buffer limit of our stream reader (64k
+        by default) and still be a perfectly good command, as long as it fits
+        in MAX_INPUT_SIZE: it is collected piece by piece. Of a line that is
+        longer than that only the start (enough for our caller to see that the
+        command is over the limit) and the very end are kept, the rest is read
+        and dropped.
+        """
+        parts: list[bytes] = []
+        size = 0
+        tail = b""
+        while True:
+            try:
+                data = await self.reader.readuntil(self.LINE_TERMINATOR)
+                complete = True
+            except asyncio.LimitOverrunError as exc:
+                data = await self.reader.readexactly(exc.consumed)
+                complete = False
+            if size <= MAX_INPUT_SIZE:
+                parts.append(data)
+            else:
+                # (The end of the line still matters: it may declare a
+                # literal that follows.)
+                #
+                tail = (tail + data)[-64:]
+            size += len(data)
+            if complete:
+                return b"".join(parts) + tail
+
+    ####################################################################
+    #
     async def discard_rest_of_command(self, literal_str_length: int) -> None:
         """
         We refused a command while the client, using non-synchronizing
@@ -697,7 +731,7 @@ class IMAPClient:
             # synchronizing one the client is waiting for us; it has sent
             # nothing more of this command.)
             #
-            msg = await self.reader.readuntil(self.LINE_TERMINATOR)
+            msg = await self.read_line()
             m = RE_LITERAL_STRING_START.search(msg.rstrip())
             if not m or not m.group(2):
                 return
